@@ -269,6 +269,13 @@ theorem tracer_hole_rule (d : Int) (right : Bool) :
 theorem tracer_reverses_iff_filled_below (d : Int) : finalRight d true = (d % 2 == 0) := by
   rcases Int.emod_two_eq d with h | h <;> simp [finalRight, h]
 
+/-- CYCLE GUARD (fix d8460b7): on every acyclic chain, for every skip predicate, the guarded nesting
+walk returns what the unguarded walk returns — the guard changes nothing except on a cyclic chain,
+where it ends the walk (the trace checker rejects such a state as `prev-cycle`) -/
+theorem tracer_cycle_guard_noop_on_acyclic (skip : TEnt → Bool) (chain : Array TEnt) (fuel : Nat) :
+    walkGuarded skip chain fuel 0 0 0 = walkPlain skip chain fuel 0 :=
+  walkGuarded_eq_plain skip chain fuel 0
+
 end Trace
 
 /-! ## E. operand preparation (`AddPathEndpoints`) -/
@@ -360,6 +367,11 @@ example : (addPathEndpoints 0 [⟨0, 0⟩, ⟨2, 2⟩, ⟨2, 0⟩, ⟨0, 2⟩] t
 example : crossSum 1 (addPathEndpoints 0 [⟨0, 0⟩, ⟨2, 2⟩, ⟨2, 0⟩] false) = 1 := by decide
 example : crossDir 1 (mkEP false 1 ⟨0, 0⟩ ⟨2, 2⟩) ≠ 0 := by decide
 example : (sums (foldColumn exCol)).1 = 0 := by decide
+
+/-- the guarded walk skips two untraced entries and stops at the traced third one -/
+example : walkGuarded (fun e => !e.traced) #[⟨⟨false, false, true, false⟩, ⟨0, 0, 1, 0⟩, false, false, 0, 0⟩,
+    ⟨⟨false, false, true, false⟩, ⟨0, 0, 1, 0⟩, false, false, 0, 0⟩,
+    ⟨⟨false, false, true, false⟩, ⟨0, 0, 1, 0⟩, false, true, 1, 1⟩] 4 0 0 0 = some 2 := by decide
 
 end NonVacuity
 
